@@ -2,6 +2,8 @@ import UsualProofs.C18.Scan
 import UsualProofs.C18.NumP
 import UsualProofs.C18.ConfigP
 import UsualProofs.C18.LoadP
+import UsualProofs.C18.Float
+import UsualProofs.C18.StrtodP
 /-!
 # C18 — Config parser delivers exactly the documented events and typed values
 
@@ -331,6 +333,70 @@ theorem set_get_roundtrip_time (env : Env) (s : Bytes) (d : Dbl) (hs : parseTime
 
 example : parseTime exEnv [50, 46, 53] = some (.fin false 5629499534213120 (-51)) := by decide +kernel
 
+/-- **the repaired `cf_set_time_usec` is exact** (binary64, round-to-nearest-even, proved for
+    every value, not sampled): for every `n < 2^40` microseconds (12.7 days), if `x` is the double
+    nearest to `n/10^6` — what a correctly rounded `strtod` returns for ANY spelling of that
+    value — then `(usec_t)(USEC * x + 0.5)` is exactly `n`. -/
+theorem time_usec_exact (n : Nat) (hn : n < 2 ^ 40) :
+    timeToUsec (dblOfRat false n 1000000) = some n := timeToUsec_exact n hn
+
+/-- the same through the setter, for any libc model whose `strtod` is correctly rounded on `s` -/
+theorem set_time_usec_exact (env : Env) (s : Bytes) (n : Nat) (hn : n < 2 ^ 40) (hs : s ≠ [])
+    (hstrtod : env.strtod s = ⟨dblOfRat false n 1000000, s.length, false⟩) :
+    applySetter env .timeUsec s = some (.usec n) := by
+  have hlen : s.length ≠ 0 := fun h => hs (List.eq_nil_of_length_eq_zero h)
+  have hlt : (dblOfRat false n 1000000).ltZero = false := by
+    unfold dblOfRat
+    cases roundRat n 1000000 <;> rfl
+  have hp : parseTime env s = some (dblOfRat false n 1000000) := by
+    unfold parseTime
+    simp [hstrtod, hlen, hlt]
+  simp [applySetter, hp, timeToUsec_exact n hn]
+
+example : strtodC [48, 46, 48, 48, 48, 50, 52, 57] = ⟨dblOfRat false 249 1000000, 8, false⟩ := by
+  decide +kernel
+
+/-- **every plain decimal spelling is stored exactly** (concrete libc model `strtodC`, all
+    values, not sampled): for every text `ip.fp` or `ip` (`ip`, `fp` strings of decimal digits of
+    ANY length, `ip` not empty — "0.000249", "1.5", "0001.50", "86400") whose value is a whole
+    number `n < 2^40` of microseconds, `cf_set_time_usec` accepts it and stores exactly `n`. -/
+theorem set_time_usec_every_decimal_spelling (env : Env) (henv : env.strtod = strtodC) (ip fp : Bytes)
+    (hip : ∀ c ∈ ip, isDigit c = true) (hne : ip ≠ []) (hfp : ∀ c ∈ fp, isDigit c = true)
+    (n : Nat) (hn : n < 2 ^ 40) :
+    (decVal (ip ++ fp) 0 * 1000000 = n * 10 ^ fp.length →
+      applySetter env .timeUsec (ip ++ 46 :: fp) = some (.usec n)) ∧
+    (decVal ip 0 * 1000000 = n → applySetter env .timeUsec ip = some (.usec n)) :=
+  ⟨fun hv => set_time_usec_plain env henv ip fp (allDig_of_isDigit hip) hne (allDig_of_isDigit hfp) n hn hv,
+   fun hv => set_time_usec_int env henv ip (allDig_of_isDigit hip) hne n hn hv⟩
+
+example : applySetter exEnv .timeUsec [48, 46, 48, 48, 48, 50, 52, 57] = some (.usec 249) :=
+  (set_time_usec_every_decimal_spelling exEnv rfl [48] [48, 48, 48, 50, 52, 57] (by decide) (by decide)
+    (by decide) 249 (by decide)).1 (by decide)
+
+/-- **binary64 rounding is correct**: for a positive rational in the normal range, `roundRat`
+    (the only rounding primitive of the model: strtod, `USEC * v`, `+ 0.5`, `/ USEC`) returns a
+    normalised double (`2^52 ≤ m`) within relative error 2⁻⁵³ of the argument. -/
+theorem binary64_rounding_correct (n d : Nat) (hn : 0 < n) (hd : 0 < d)
+    (hlo : (2 : ℚ) ^ (-1000 : Int) ≤ (n : ℚ) / d) (hhi : (n : ℚ) / d < 2 ^ (1000 : Int)) :
+    ∃ r, roundRat n d = some r ∧ 2 ^ 52 ≤ r.m ∧
+      |(r.m : ℚ) * 2 ^ r.e - (n : ℚ) / d| ≤ (n : ℚ) / d * 2 ^ (-53 : Int) :=
+  roundRat_spec n d hn hd hlo hhi
+
+example : roundRat 1 10 = some ⟨7205759403792794, -56, true⟩ := by decide +kernel
+
+/-- `cf_set_time_double` on a plain decimal spelling stores the binary64 nearest to the value -/
+theorem set_time_double_nearest (env : Env) (henv : env.strtod = strtodC) (ip fp : Bytes)
+    (hip : ∀ c ∈ ip, isDigit c = true) (hne : ip ≠ []) (hfp : ∀ c ∈ fp, isDigit c = true)
+    (hpos : 0 < decVal (ip ++ fp) 0) (hlo : 10 ^ fp.length ≤ decVal (ip ++ fp) 0 * 1048576)
+    (hhi : decVal (ip ++ fp) 0 < 1125899906842624 * 10 ^ fp.length) :
+    applySetter env .timeDouble (ip ++ 46 :: fp) =
+      some (.dbl (dblOfRat false (decVal (ip ++ fp) 0) (10 ^ fp.length))) :=
+  set_time_double_plain env henv ip fp (allDig_of_isDigit hip) hne (allDig_of_isDigit hfp) hpos hlo hhi
+
+example : applySetter exEnv .timeDouble [50, 46, 53] = some (.dbl (dblOfRat false 25 10)) :=
+  set_time_double_nearest exEnv rfl [50] [53] (by decide) (by decide) (by decide) (by decide) (by decide)
+    (by decide)
+
 /-- **round trip, time, concrete libc model** (`strtodC`, `fmtG`, IEEE round-to-nearest-even):
     each of the listed microsecond counts (among them the ones the unrepaired code got wrong:
     248…251, 488…511, 977…1009) — and each listed millisecond count as a double — is rendered by
@@ -346,7 +412,10 @@ theorem set_get_roundtrip_time_partial :
       (applyGetter exEnv .timeDouble (some (.dbl (dblOfRat false k 1000)))).bind
         (applySetter exEnv .timeDouble) = some (.dbl (dblOfRat false k 1000))) := by
   decide +kernel
-/- full statement (not proved: needs error analysis of binary64 rounding, not a finite check):
+/- The setter half of the full statement is proved for all values: `time_usec_exact` (numeric,
+   all n < 2^40) and `set_time_usec_every_decimal_spelling` (the concrete `strtodC` on every plain
+   decimal spelling).  What is still only sampled is the getter half of the concrete libc model:
+   that `fmtG` (the `%g` model) prints the canonical spelling of n/10^6.  Full statement:
    theorem set_get_roundtrip_time_full : ∀ u < 10^6 * 2^31, (u has at most 6 significant decimal
      digits) → (applyGetter exEnv .timeUsec (some (.usec u))).bind (applySetter exEnv .timeUsec)
      = some (.usec u)   -- and the analogue for doubles with ≤ 6 significant digits -/
